@@ -35,6 +35,10 @@ CLAIMED = {
    text='Coq theorems (every order/dims/ranks): no inner rank exceeds max_rank after construction from a full array or a truncating sweep (int or per-bond list); threshold 0 / unbounded rank is exact; ERROR IDENTITY: for genuine SVD answers and prefix truncation the squared Frobenius error equals the sum of the squares of all discarded singular values. TT(ndarray,..), truncated_svd and the truncating sweeps are tied to /repo by oracle-tape differential execution; side check of both inequalities of the property against dense unfoldings (flat and decaying spectra).',
    note='PARTIAL: the quasi-optimality bound w.r.t. the ORIGINAL unfoldings (needs Eckart-Young + interlacing) and the threshold bound (needs an ordered field) are derived from the proved identity only on paper and are tested numerically. Known finding F14 (zero tensor with threshold > 0 raises) is reported as KNOWN-FINDING. Trusted: Coq kernel, harness, SVD oracle hypotheses.',
    technique='Coq proof (Pythagoras over orthonormal singular directions, induction over the TT-SVD) + oracle-tape correspondence', design='6 C04'),
+ 'C06': dict(
+   text='Coq theorems over an abstract heap model (objects own buffers with versions; every public operation has the effect fresh / in-place-on-target / consume): separation of distinct live objects is invariant under every effect and hence in every reachable state of every finite call history; every object other than the target keeps its value under any operation. The effect table is tied to /repo by a history fuzzer over ~50 public operations (binary operators, all overwrite variants, sweeps, svd/pinv, solvers, integrators, tdmd, arr) that observes the sharing graph (np.shares_memory), dense values, metadata and consistency after every step and tries to turn any aliasing into a visible change by in-place sweeps on rank-1 bonds.',
+   note='Trusted: Coq kernel; the hand-written effect table (validated by observation on every run); NumPy/LAPACK memory behaviour is observed, not modelled; objects handed in twice by the caller (t.tensordot(t, overwrite=True)) and the consumed self of svd/pinv(overwrite=True) are outside the pool.',
+   technique='Coq invariant proof over call histories (heap state machine) + observed-history correspondence', design='6 C06'),
 }
 NOT_YET = {}
 ALL = ['C%02d' % i for i in range(1, 21)]
